@@ -43,6 +43,14 @@ def generate(rng, tier):
             sup = None if rng.random() < 0.2 else region()
             cases.append({"regime": regime, "t": t, "sup": sup, "removed": region(),
                           "other": gen.rand_timeline(rng, regime, maxn=5)})
+    for regime in ("K0", "K4"):
+        for nbig in ([300, 640, 1100] if tier == "thorough" else [290 + 35 * len(regime)]):
+            u_ = 5 if regime == "K4" else 1
+            big = gen.big_timeline(rng, regime, nbig)
+            hi = max(x[1] for x in big)
+            reg = lambda k_: ["tl", [[a, a + rng.choice([3, 9, 40]) * u_] for a in sorted(rng.sample(range(0, hi, u_), k_))]]
+            cases.append({"regime": regime, "t": big, "sup": rng.choice([None, reg(12)]), "removed": reg(20),
+                          "other": gen.big_timeline(rng, regime, 40)})
     cases += gen.far_copies(rng, cases, ['t', 'sup', 'removed', 'other'], (400 if tier == "thorough" else 60))
     return {"cases": cases, "meta": {"exhaustive": True, "small_scope_cases": nex,
                                      "sizes": gen.stats(cases, {"n_t": lambda c: len(c["t"]),
